@@ -286,21 +286,25 @@ func readCase(r db.KeyValueReader, c *blockCase, deep bool) *got {
 }
 
 // deleteCase removes the block's records through the real Delete* accessors and checks that they are gone.
-func (h *harness) deleteCase(d db.KeyValueStore, c *blockCase, be string) {
+func (h *harness) deleteInto(d db.KeyValueStore, b db.Batch, c *blockCase, be string) bool {
 	n := c.Hdr.Number
-	b := d.NewBatch()
 	err := errors.Join(
 		core.DeleteTransactionsAndReceipts(d, b, n),
 		core.DeleteBlockHeaderByNumber(b, n),
 		core.DeleteBlockHeaderNumberByHash(b, c.Hdr.Hash),
 		core.DeleteStateUpdateByBlockNum(b, n),
 		core.DeleteBlockCommitment(b, n),
-		b.Write(),
 	)
 	if err != nil {
 		h.bad("record", "Delete*", ": error "+err.Error(), c, be, "")
-		return
+		return false
 	}
+	return true
+}
+
+func (h *harness) checkDeleted(d db.KeyValueStore, c *blockCase, be string) {
+	n := c.Hdr.Number
+	var err error
 	notFound := func(acc string, err error) {
 		if !errors.Is(err, db.ErrKeyNotFound) {
 			h.bad("record", acc+" after delete", fmt.Sprintf(": want ErrKeyNotFound got %v", err), c, be, "")
@@ -650,61 +654,108 @@ func (e *env) number() uint64 {
 	return numberWindow[e.next%uint64(len(numberWindow))]
 }
 
-// runCase: write -> read everything -> delete -> compare (the comparison happens after further database activity
-// so that a value still aliasing a database buffer would show).
-func (h *harness) runCase(e *env, c *blockCase, deep bool) {
-	h.r.Add("evaluations", 1)
-	var raws [][]byte
-	allOK := true
+const chunkSize = 8 // <= len(numberWindow): consecutive numbers handed out inside a chunk are distinct
+
+// runChunk: write a chunk of cases in ONE batch per backend -> read everything -> delete them in one batch -> compare
+// (the comparison happens after further database activity so that a value still aliasing a database buffer would
+// show). Cases of a chunk have distinct block numbers and distinct transaction hashes.
+func (h *harness) runChunk(e *env, cs []*blockCase, deep bool) {
+	h.r.Add("evaluations", int64(len(cs)))
+	raws := make([][][]byte, len(cs))
+	allOK := make([]bool, len(cs))
+	for i := range allOK {
+		allOK[i] = true
+	}
 	for bi, d := range e.dbs {
 		be := backends[bi].name
 		b := d.NewBatch()
-		var handed *blockCase
-		var err error
-		if p, msg := ev.Guard(func() { handed, err = writeCase(b, c) }); p {
-			h.bad("record", "write", ": panic "+msg, c, be, "")
-			allOK = false
+		handed := make([]*blockCase, len(cs))
+		live := make([]bool, len(cs))
+		for i, c := range cs {
+			var err error
+			if p, msg := ev.Guard(func() { handed[i], err = writeCase(b, c) }); p {
+				h.bad("record", "write", ": panic "+msg, c, be, "")
+				allOK[i] = false
+				continue
+			}
+			if err != nil {
+				h.bad("record", "write", ": error "+err.Error(), c, be, "")
+				allOK[i] = false
+				continue
+			}
+			live[i] = true
+		}
+		if err := b.Write(); err != nil {
+			h.bad("record", "write", ": batch error "+err.Error(), cs[0], be, "")
+			for i := range allOK {
+				allOK[i] = false
+			}
 			continue
 		}
-		if err == nil {
-			err = b.Write()
-		}
-		if err != nil {
-			h.bad("record", "write", ": error "+err.Error(), c, be, "")
-			allOK = false
-			continue
-		}
-		var g *got
-		if p, msg := ev.Guard(func() { g = readCase(d, c, deep) }); p {
-			h.bad("record", "read", ": panic "+msg, c, be, "")
-			allOK = false
-			h.deleteCase(d, c, be)
-			continue
-		}
-		h.deleteCase(d, c, be)
-		if !h.compare(c, g, be, "record") {
-			allOK = false
-		}
-		// juno must not have modified what it was given
-		if dd := diff(c.Hdr, handed.Hdr) + listEq(c.Txs, handed.Txs) + listEq(c.Rcs, handed.Rcs) + diff(c.SU, handed.SU); dd != "" {
-			h.bad("record", "write mutated its input", dd, c, be, "")
-			allOK = false
-		}
-		if deep && g.raw != nil {
-			raws = append(raws, g.raw)
-			if bi == 0 {
-				h.decoders(c, g.raw, be)
+		gots := make([]*got, len(cs))
+		for i, c := range cs {
+			if !live[i] {
+				continue
+			}
+			if p, msg := ev.Guard(func() { gots[i] = readCase(d, c, deep) }); p {
+				h.bad("record", "read", ": panic "+msg, c, be, "")
+				allOK[i] = false
+				gots[i] = nil
 			}
 		}
-		h.r.Add("accessor_reads", int64(24+len(c.Txs)*9))
+		db2 := d.NewBatch()
+		deleted := make([]bool, len(cs))
+		for i, c := range cs {
+			if live[i] {
+				if p, msg := ev.Guard(func() { deleted[i] = h.deleteInto(d, db2, c, be) }); p {
+					h.bad("record", "Delete*", ": panic "+msg, c, be, "")
+				}
+				if !deleted[i] {
+					allOK[i] = false
+				}
+			}
+		}
+		if err := db2.Write(); err != nil {
+			h.bad("record", "Delete*", ": batch error "+err.Error(), cs[0], be, "")
+		}
+		for i, c := range cs {
+			if !live[i] {
+				continue
+			}
+			if deleted[i] {
+				h.checkDeleted(d, c, be)
+			}
+			g := gots[i]
+			if g == nil {
+				continue
+			}
+			if !h.compare(c, g, be, "record") {
+				allOK[i] = false
+			}
+			// juno must not have modified what it was given
+			hd := handed[i]
+			if dd := diff(c.Hdr, hd.Hdr) + listEq(c.Txs, hd.Txs) + listEq(c.Rcs, hd.Rcs) + diff(c.SU, hd.SU); dd != "" {
+				h.bad("record", "write mutated its input", dd, c, be, "")
+				allOK[i] = false
+			}
+			if deep && g.raw != nil {
+				raws[i] = append(raws[i], g.raw)
+				if bi == 0 {
+					h.decoders(c, g.raw, be)
+				}
+			}
+			h.r.Add("accessor_reads", int64(28+len(c.Txs)*9))
+		}
 	}
-	if len(raws) == 2 && !bytes.Equal(raws[0], raws[1]) {
-		h.bad("record", "raw bytes memory vs pebblev2", ": differ", c, "both", "")
-		allOK = false
-	}
-	if allOK {
-		h.r.Outcome(fmt.Sprintf("ok txs=%d", len(c.Txs)))
-	} else {
-		h.r.Outcome("mismatch")
+	for i, c := range cs {
+		if len(raws[i]) == 2 && !bytes.Equal(raws[i][0], raws[i][1]) {
+			h.bad("record", "raw bytes memory vs pebblev2", ": differ", c, "both", "")
+			allOK[i] = false
+		}
+		if allOK[i] {
+			h.r.Outcome(fmt.Sprintf("ok txs=%d", len(c.Txs)))
+		} else {
+			h.r.Outcome("mismatch")
+		}
 	}
 }
